@@ -1,0 +1,13 @@
+//go:build verif
+
+// Contracts for the shared API response helpers, read by /verif/govc.
+// This file contains comments only; it is compiled only with -tags verif.
+
+package api
+
+// C17: mapping the items of a page keeps the page itself: the same size, the same hasMore, the same previous and
+// next tokens (each in its own field), and one mapped item per item
+//@ func api.MapCursor
+//@   ensures ret != nil && ret.PageSize == cursor.PageSize && ret.HasMore == cursor.HasMore
+//@   ensures ret.Previous == cursor.Previous && ret.Next == cursor.Next && len(ret.Data) == len(cursor.Data)
+//@   property C17
